@@ -821,6 +821,64 @@ package rueidis
 //@   ensures [C09 a-failed-exec-cancels-its-flight where-defined] second(returned(ToArray)) != nil ==> calls(Cancel) == 1
 
 // ---------------------------------------------------------------------------------------------
+// C25 — dedicated clients: every use of the dedicated connection comes after a passing recycled-check, a released
+// client rejects, the connection is handed back once, and it goes back to the pool without hooks, subscriptions or
+// invalidation tracking (client.go, cluster.go, mux.go). Sequential part; the mark is read atomically (arbitrary value).
+//@ func dedicatedSingleClient.check
+//@   modifies *
+//@   ensures [C25 a-marked-client-is-recycled] (returned(LoadUint32) != 0 ==> result == ErrDedicatedClientRecycled) && (returned(LoadUint32) == 0 ==> result == nil)
+//@ func dedicatedSingleClient.release
+//@   modifies *
+//@   assert [C25 the-connection-is-handed-back-only-by-the-call-that-sets-the-mark] at Store: returned(CompareAndSwapUint32) && arg1 == c.wire
+//@   assert [C25 the-mark-goes-from-unset-to-set] at CompareAndSwapUint32: arg1 == 0 && arg2 == 1
+//@   ensures [C25 handed-back-at-most-once-per-release] calls(Store) <= 1
+//@ func dedicatedSingleClient.Do #c25
+//@   modifies *
+//@   assert [C25 the-connection-is-used-only-after-a-passing-check] at Do: returned(check) == nil && arg0 == c.wire
+//@   ensures [C25 a-recycled-client-rejects-the-call where-defined] returned(check) != nil ==> (resp.err == returned(check) && calls(Do) == before(check, calls(Do)))
+//@ func dedicatedSingleClient.DoMulti #c25
+//@   modifies *
+//@   assert [C25 the-connection-is-used-only-after-a-passing-check] at DoMulti: returned(check) == nil && arg0 == c.wire
+//@ func dedicatedSingleClient.Receive #c25
+//@   modifies *
+//@   assert [C25 the-connection-is-used-only-after-a-passing-check] at Receive: returned(check) == nil && arg0 == c.wire
+//@   ensures [C25 a-recycled-client-rejects-the-call where-defined] returned(check) != nil ==> err == returned(check)
+//@ func dedicatedSingleClient.SetPubSubHooks #c25
+//@   modifies *
+//@   assert [C25 the-connection-is-used-only-after-a-passing-check] at SetPubSubHooks: returned(check) == nil && arg0 == c.wire
+//@ func dedicatedSingleClient.SetOnInvalidations #c25
+//@   modifies *
+//@   assert [C25 the-connection-is-used-only-after-a-passing-check] at GetPubSubHooks: returned(check) == nil && arg0 == c.wire
+//@ func dedicatedSingleClient.Close #c25
+//@   modifies *
+//@   ensures [C25 close-also-releases] calls(release) == 1 && calls(Close) == 1
+
+//@ func singleClient.Dedicated #c25
+//@   modifies *
+//@   assert [C25 the-callback-gets-a-client-on-the-freshly-acquired-connection] at fn: arg0 == dsc && dsc.wire == returned(Acquire) && dsc.conn == c.conn && dsc.mark == 0
+//@   ensures [C25 released-exactly-once-after-the-callback] calls(release) == 1 && calls(fn) == 1 && err == returned(fn)
+//@ func singleClient.Dedicate #c25
+//@   modifies *
+//@   ensures [C25 the-client-sits-on-the-freshly-acquired-connection where-defined] dsc.wire == returned(Acquire) && dsc.conn == c.conn && dsc.mark == 0 && result0 == dsc
+
+// the multiplexer strips what a dedicated user may have set up before the connection goes back to the pool
+//@ func mux.Store #c25
+//@   modifies *
+//@   assert [C25 hooks-are-reset-before-the-connection-is-pooled] at SetPubSubHooks: arg0 == w && arg1.OnMessage == nil && arg1.OnSubscription == nil && arg1.onInvalidations == nil
+//@   assert [C25 tracking-is-switched-off-when-invalidations-were-enabled] at Do: hasOnInvalidations && arg0 == w && arg2 == cmds.ClientTrackingOffCmd
+//@   assert [C25 pooled-only-after-hooks-reset-subscriptions-cleaned-and-tracking-off] at Store: arg1 == w && calls(SetPubSubHooks) == 1 && calls(CleanSubscriptions) == 1 && (hasOnInvalidations ==> calls(Do) == 1)
+
+//@ func dedicatedClusterClient.acquire #c25
+//@   modifies *
+//@   ensures [C25 a-marked-client-is-recycled] old(c.mark) ==> (err == ErrDedicatedClientRecycled && wire == nil && calls(Acquire) == 0 && calls(pick) == 0)
+//@   ensures [C25 one-connection-for-the-whole-session] (!old(c.mark) && old(c.wire) != nil) ==> (wire == old(c.wire) && err == nil && calls(Acquire) == 0)
+//@ func dedicatedClusterClient.release #c25
+//@   modifies *
+//@   assert [C25 handed-back-only-by-the-first-release] at Store: !c.mark && arg1 == c.wire && c.wire != nil
+//@   ensures [C25 marked-after-release] c.mark
+//@   ensures [C25 a-second-release-hands-nothing-back] old(c.mark) ==> calls(Store) == 0
+
+// ---------------------------------------------------------------------------------------------
 // C07 — cached replies expire at the earlier of the client TTL and the server PTTL (message.go, lru.go).
 // The expiry of a cached message is the 56-bit little-endian number kept in RedisMessage.ttl (0 = none).
 //@ func RedisMessage.setExpireAt
